@@ -429,5 +429,28 @@ def render_positions(case):
     return out
 
 
+def render_fixed(case):
+    """render_positions plus the used margin-top of every element with an id (sixth field)."""
+    from tests.testing_utils import render_pages
+    from weasyprint.formatting_structure import boxes
+    pages = render_pages(case['html'])
+    out = []
+    for pi, page in enumerate(pages):
+        seen = {}
+
+        def visit(b):
+            b = _unwrap(b)
+            if isinstance(b, boxes.Box) and _eid(b) is not None and not isinstance(b, boxes.LineBox):
+                if _eid(b) not in seen:
+                    mt = b.margin_top
+                    seen[_eid(b)] = [b.position_x, b.position_y, b.width, b.height, type(b).__name__,
+                                     mt if isinstance(mt, (int, float)) else None]
+            for c in getattr(b, 'children', ()) or ():
+                visit(c)
+        visit(page)
+        out.append(seen)
+    return out
+
+
 def render_relative_pair(case):
     return {'with': render_positions({'html': case['html']}), 'without': render_positions({'html': case['html_plain']})}
